@@ -57,14 +57,14 @@ func C13(r *h.Run) {
 
 	// ---------- (1) pool traces ----------
 	type scenario struct {
-		name     string
-		proto    string
-		unary    bool
-		algo     string // request compression
-		accept   string
-		nmsgs    int
-		errMsg   string // non-empty: handler returns an error with this message
-		sks      []string
+		name   string
+		proto  string
+		unary  bool
+		algo   string // request compression
+		accept string
+		nmsgs  int
+		errMsg string // non-empty: handler returns an error with this message
+		sks    []string
 	}
 	rep := func(s string, n int) []string {
 		out := make([]string, n)
@@ -370,7 +370,7 @@ func C13(r *h.Run) {
 		// run-length pairs (count, value): 4 wire bytes that inflate to 510 bytes, beyond the limit of 256
 		bomb := []byte{255, 'x', 255, 'y'}
 		bomb2 := []byte{255, 'x', 2, 'y'} // one byte beyond the limit
-		corrupt := []byte{3, 'a', 7} // dangling count: fails in Read
+		corrupt := []byte{3, 'a', 7}      // dangling count: fails in Read
 		triggers := [][][]byte{{bomb}, {bomb2}, {corrupt}, {bomb, corrupt, bomb2}}[round%4]
 		probs, wrong, first := decompressorSharingAlgo("rle", triggers, 16, 10)
 		r.Eval("decompressor_sharing", fmt.Sprint(round))
